@@ -84,6 +84,11 @@ def _events():
     ev("parse(invalid fr date, default settings)", lambda a: P("32 janvier 2020", languages=a["l"]), {"l": ["fr"]}, core=True)
     ev("parse(de fails then en)", lambda a: P("12/25/2020", languages=a["l"]), {"l": ["de", "en"]})
     ev("parse(tl numeric)", lambda a: P("01/02/2020", languages=a["l"]), {"l": ["tl"]})
+    ev("parse(tl numeric, explicit DMY)", lambda a: P("01/02/2020", languages=["tl"], settings=a["s"]), {"s": {"DATE_ORDER": "DMY"}}, core=True)
+    NS = {"PARSERS": ["absolute-time", "no-spaces-time"]}
+    ev("parse(digits only, no-spaces parser, fr)", lambda a: P("200177", languages=["fr"], settings=a["s"]), {"s": dict(NS)}, core=True)
+    ev("parse(digits only, no-spaces parser, en)", lambda a: P("200177", languages=["en"], settings=a["s"]), {"s": dict(NS)})
+    ev("parse(digits only, no-spaces parser, en, YMD)", lambda a: P("200177", languages=["en"], settings=a["s"]), {"s": dict(NS, DATE_ORDER="YMD")})
     ev("parse(fallback to 2 default languages)", lambda a: P("xyzzy plugh", languages=["en"], settings=a["s"]), {"s": {"DEFAULT_LANGUAGES": ["fr", "en"]}})
     ev("persistent tl parser, given order, 2 defaults", lambda a: _pp("tl", languages=["tl"], use_given_order=True, settings=a["s"]).get_date_data("01/02/2020 10h30"),
        {"s": {"DEFAULT_LANGUAGES": ["fr", "en"]}})
@@ -338,7 +343,7 @@ def run(tier, seed, jobs, deadline, report):
     # cache-limit calls, calls whose settings inherit from the module default)
     quick_core = {i for i, e in enumerate(E) if e["name"].startswith("persistent") or e["name"] in (
         "parse(en, cache limit 1)", "parse(fr, cache limit 1)", "parse(de, cache limit 2)", "search(fr, S1)",
-        "parse(fr, no locale order)", "parse(tl numeric)", "parse(foo string, default settings)", "parse(order DMY)")}
+        "parse(fr, no locale order)", "parse(tl numeric)", "parse(foo string, default settings)", "parse(order DMY)", "parse(digits only, no-spaces parser, en)")}
     if T:
         res = _explore(full, 3, core, 4, jobs, deadline, seed, extend_from=all_core)
     else:
